@@ -119,4 +119,36 @@ end Dy
 /-- `Vector3.L1Norm` on binary64 -/
 def l1NormDy (a : V3 F64.Dy) : F64.Dy := F64.add (F64.add (F64.abs a.x) (F64.abs a.y)) (F64.abs a.z)
 
+/-! ### point-list helpers of point3.go on binary64 -/
+open Dy in
+/-- `MaxPoint`: the first point with the largest dot product with `vec` (strict `<` keeps the earlier one); `none` for `[]` -/
+def maxPoint (pts : List (V3 F64.Dy)) (vec : V3 F64.Dy) : Option (V3 F64.Dy) :=
+  match pts with
+  | [] => none
+  | p0 :: _ =>
+    some (pts.foldl (fun (acc : V3 F64.Dy × F64.Dy) p =>
+      let v := p.dot vec
+      if F64.lt acc.2 v then (p, v) else acc) (p0, p0.dot vec)).1
+
+open Dy in
+/-- `MinPoint` -/
+def minPoint (pts : List (V3 F64.Dy)) (vec : V3 F64.Dy) : Option (V3 F64.Dy) :=
+  match pts with
+  | [] => none
+  | p0 :: _ =>
+    some (pts.foldl (fun (acc : V3 F64.Dy × F64.Dy) p =>
+      let v := p.dot vec
+      if F64.lt v acc.2 then (p, v) else acc) (p0, p0.dot vec)).1
+
+/-- `common.AlmostEqual x y absTol` = `x == y || |x - y| <= absTol` -/
+def almostEqual (x y tol : F64.Dy) : Bool := F64.eq x y || F64.le (F64.abs (F64.sub x y)) tol
+
+/-- `Point3.IsClose` -/
+def isClose (p q : V3 F64.Dy) (eps : F64.Dy) : Bool :=
+  almostEqual p.x q.x eps && almostEqual p.y q.y eps && almostEqual p.z q.z eps
+
+/-- `UniqueAppend`: append unless some listed point is close to the new one -/
+def uniqueAppend (pts : List (V3 F64.Dy)) (a : V3 F64.Dy) (eps : F64.Dy) : List (V3 F64.Dy) :=
+  if pts.any (fun p => isClose p a eps) then pts else pts ++ [a]
+
 end SpatialId.Vec
